@@ -10,7 +10,7 @@ import schemacase as sc
 from canon import cq_elem, Unmodelled
 from common import Result, rng_for
 from coqemit import cq_str, cq_bool
-from props.c05 import quiet_call, is_np, default_of
+from props.c05 import pattern_matched, quiet_call, is_np, default_of
 from props.c18 import walk
 
 
@@ -183,6 +183,8 @@ def run(tier, seed, replay=None):
                         src = p.source if p.source is not None else attr
                         if src != attr and isinstance(v, dict) and attr in v:
                             fid = "C19-K13"
+                        elif is_np(val) and pattern_matched(cls, src):
+                            fid, stats["k12"] = "C19-K12", stats.get("k12", 0) + 1
                         elif allof_k9(p.element):
                             fid, stats["k9"] = "C19-K9", stats["k9"] + 1
                         elif invalid_default_inside(p.element):
